@@ -146,6 +146,11 @@ class FileStorage:
         return bool(self.filename)
 
     def __getattr__(self, name: str) -> t.Any:
+        if name == "stream":
+            # Not initialized yet (copy and pickle create the object without
+            # calling __init__), looking it up again would recurse.
+            raise AttributeError(name)
+
         try:
             return getattr(self.stream, name)
         except AttributeError:
